@@ -1244,6 +1244,36 @@ pub fn generate(ctx: &mut Ctx) {
             }
         }
     }
+    // 2b. the same enumeration on record sets in which a tag of the alphabet occurs in NO record (the grid built from
+    //     them has no such column): a filter may still hold through another alternative or a `not`
+    let pick = |idx: &[usize]| -> Vec<Dict> { idx.iter().map(|i| erecs[*i].clone()).collect() };
+    let lacking: Vec<(&str, Vec<Dict>)> = vec![
+        ("nob", pick(&[0, 2])),            // no record has `b`
+        ("noa", vec![erecs[0].clone(), dict_of(vec![("b", num(4.0, None))]), dict_of(vec![("b", Value::make_str("x"))])]),
+        ("nod", pick(&[0, 1, 4, 6])),      // no record has `d`
+    ];
+    for (name, lrecs) in &lacking {
+        for n in 1..=3usize {
+            let k: usize = if ctx.quick() { 5 } else { 10 };
+            let alpha = enum_alphabet(k);
+            let total = k.pow(n as u32);
+            for sh in &shapes(n) {
+                for code in 0..total {
+                    let mut c = code;
+                    let leaves: Vec<T> = (0..n)
+                        .map(|_| {
+                            let t = alpha[c % k].clone();
+                            c /= k;
+                            t
+                        })
+                        .collect();
+                    let mut f = fill(sh, &leaves);
+                    avoid_p1(&mut f);
+                    ctx.case(&format!("enum{n}:{name}"), &case_input("d", &f, lrecs, None));
+                }
+            }
+        }
+    }
     // 3. random filters on random record sets
     let total = ctx.n(3000, 100_000);
     for i in 0..total {
